@@ -9,6 +9,7 @@ import (
 	"fmt"
 	"math/rand"
 	"os"
+	"runtime"
 	"sync"
 	"sync/atomic"
 	"time"
@@ -73,8 +74,13 @@ func (f *fakeConn) Invoke(ctx context.Context, in bin.Encoder, out bin.Decoder) 
 			res = "dead"
 		}
 		f.w.mu.Unlock()
-	} else {
-		time.Sleep(time.Duration(f.w.rng(150)) * time.Microsecond)
+	} else if !f.w.draining.Load() {
+		// hold the connection for a while; spin instead of sleeping so that the goroutine never
+		// looks blocked to the quiescence detector
+		until := time.Now().Add(time.Duration(f.w.rng(150)) * time.Microsecond)
+		for time.Now().Before(until) && !f.w.draining.Load() {
+			runtime.Gosched()
+		}
 	}
 	if f.killed.Load() {
 		res = "dead"
@@ -97,8 +103,11 @@ type world struct {
 	outcome map[int]string
 	cancels map[int]context.CancelFunc
 	canc    map[int]bool
-	rmu     sync.Mutex
-	rnd     *rand.Rand
+	done    map[int]bool
+	// draining: the random phase of a free run is over, Invoke returns at once
+	draining atomic.Bool
+	rmu      sync.Mutex
+	rnd      *rand.Rand
 }
 
 func (w *world) rng(n int) int {
@@ -108,7 +117,7 @@ func (w *world) rng(n int) int {
 }
 
 func newWorld(r *rec, s *sched.S, max int64, rnd *rand.Rand) *world {
-	w := &world{r: r, s: s, outcome: map[int]string{}, cancels: map[int]context.CancelFunc{}, canc: map[int]bool{}, rnd: rnd}
+	w := &world{r: r, s: s, outcome: map[int]string{}, cancels: map[int]context.CancelFunc{}, canc: map[int]bool{}, done: map[int]bool{}, rnd: rnd}
 	w.dc = pool.NewDC(context.Background(), 2, func() pool.Conn {
 		w.mu.Lock()
 		f := &fakeConn{id: len(w.conns) + 1, w: w, ready: tdsync.NewReady(), kill: make(chan struct{}), retc: make(chan struct{})}
@@ -135,10 +144,12 @@ func (w *world) nconns() int {
 	return len(w.conns)
 }
 
-func (w *world) start(c int, wg *sync.WaitGroup) {
+func (w *world) start(c int, wg *sync.WaitGroup) context.CancelFunc {
 	ctx, cancel := context.WithCancel(context.Background())
+	w.mu.Lock()
 	w.cancels[c] = cancel
 	w.canc[c] = false
+	w.mu.Unlock()
 	w.r.emit(tr.M{"ev": "CallerStart", "c": c})
 	run := func() {
 		err := w.dc.Invoke(ctx, callerTag{c}, nil)
@@ -147,6 +158,9 @@ func (w *world) start(c int, wg *sync.WaitGroup) {
 			e = "err"
 		}
 		w.r.emit(tr.M{"ev": "CallerEnd", "c": c, "err": e})
+		w.mu.Lock()
+		w.done[c] = true
+		w.mu.Unlock()
 		if wg != nil {
 			wg.Done()
 		}
@@ -157,6 +171,26 @@ func (w *world) start(c int, wg *sync.WaitGroup) {
 		wg.Add(1)
 		go run()
 	}
+	return cancel
+}
+
+// cancelAll cancels every caller context created so far.
+func (w *world) cancelAll() {
+	w.mu.Lock()
+	cs := make([]context.CancelFunc, 0, len(w.cancels))
+	for _, cancel := range w.cancels {
+		cs = append(cs, cancel)
+	}
+	w.mu.Unlock()
+	for _, cancel := range cs {
+		cancel()
+	}
+}
+
+func (w *world) isDone(c int) bool {
+	w.mu.Lock()
+	defer w.mu.Unlock()
+	return w.done[c]
 }
 
 func (w *world) ready(r int) {
@@ -286,10 +320,7 @@ func replay(r *rec, trace int, c tr.M, max int64) {
 	if s.Alive(name(9)) {
 		r.emit(tr.M{"ev": "ProbeStarved"})
 	}
-	for cc, cancel := range w.cancels {
-		_ = cc
-		cancel()
-	}
+	w.cancelAll()
 	s.PassThrough = true
 	for _, cc := range append(ids, 9) {
 		s.Release(name(cc))
@@ -298,7 +329,7 @@ func replay(r *rec, trace int, c tr.M, max int64) {
 	go func() { _ = w.dc.Close(); close(closed) }()
 	select {
 	case <-closed:
-	case <-time.After(10 * time.Second):
+	case <-time.After(120 * time.Second):
 		panic("DC.Close did not return")
 	}
 	r.emit(tr.M{"ev": "End"})
@@ -307,8 +338,11 @@ func replay(r *rec, trace int, c tr.M, max int64) {
 func free(r *rec, trace int, rnd *rand.Rand) {
 	max := int64(1 + rnd.Intn(3))
 	r.emit(tr.M{"ev": "reset", "trace": trace, "max": int(max), "sched": false})
+	// free running: gates never park; the scheduler records the pool's death declarations and
+	// detects quiescence of the pool goroutines for the end-of-trace probes
 	s := sched.New()
 	s.PassThrough = true
+	s.Watch = []string{"pool.(*DC)", "fakeConn", "main.(*world)"}
 	s.OnAny = func(point uint16, key int64) {
 		if point == verifhook.PoolDead {
 			r.emit(tr.M{"ev": "PoolDead", "r": int(key)})
@@ -345,39 +379,87 @@ func free(r *rec, trace int, rnd *rand.Rand) {
 			time.Sleep(time.Duration(w.rng(80)) * time.Microsecond)
 		}
 	}()
+	// cancellations fire from timers; every timer is accounted for before the trace is judged
+	var timers []*time.Timer
+	var timerWG sync.WaitGroup
 	for c := 1; c <= ncall; c++ {
-		w.start(c, &wg)
+		cancel := w.start(c, &wg)
 		if w.rng(3) == 0 {
 			cc := c
 			d := time.Duration(w.rng(300)) * time.Microsecond
-			time.AfterFunc(d, func() { w.r.emit(tr.M{"ev": "Cancel", "c": cc}); w.cancels[cc]() })
+			timerWG.Add(1)
+			timers = append(timers, time.AfterFunc(d, func() {
+				defer timerWG.Done()
+				w.r.emit(tr.M{"ev": "Cancel", "c": cc})
+				cancel()
+			}))
 		}
 		time.Sleep(time.Duration(w.rng(100)) * time.Microsecond)
 	}
 	done := make(chan struct{})
 	go func() { wg.Wait(); close(done) }()
-	// keep the environment alive: all callers must finish (served or cancelled)
+	// let the random environment run until the callers are through; how long this takes decides nothing
 	select {
 	case <-done:
-	case <-time.After(5 * time.Second):
-		r.emit(tr.M{"ev": "Stranded", "c": 0, "cancelled": false})
-	}
-	// probe
-	var pwg sync.WaitGroup
-	w.start(9, &pwg)
-	pdone := make(chan struct{})
-	go func() { pwg.Wait(); close(pdone) }()
-	select {
-	case <-pdone:
-	case <-time.After(5 * time.Second):
-		r.emit(tr.M{"ev": "ProbeStarved"})
+	case <-time.After(500 * time.Millisecond):
 	}
 	close(stop)
 	envWG.Wait()
-	for _, cancel := range w.cancels {
-		cancel()
+	for _, t := range timers {
+		if t.Stop() {
+			timerWG.Done()
+		}
 	}
-	_ = w.dc.Close()
+	timerWG.Wait()
+	w.draining.Store(true)
+	// drain: every connection becomes ready or finishes dying, until nothing moves any more;
+	// a caller that has not returned by then is blocked for good
+	drain := func() {
+		s.Settle()
+		for progress := true; progress; {
+			progress = false
+			for k := 1; k <= w.nconns(); k++ {
+				f := w.conn(k)
+				if f.killed.Load() {
+					closed := false
+					f.retOnce.Do(func() { close(f.retc); closed = true })
+					if closed {
+						progress = true
+						s.Settle()
+					}
+				} else {
+					select {
+					case <-f.ready.Ready():
+					default:
+						w.ready(k)
+						progress = true
+						s.Settle()
+					}
+				}
+			}
+		}
+	}
+	drain()
+	for c := 1; c <= ncall; c++ {
+		if !w.isDone(c) {
+			r.emit(tr.M{"ev": "Stranded", "c": c, "cancelled": false})
+		}
+	}
+	// probe: a fresh caller must be served
+	var pwg sync.WaitGroup
+	w.start(9, &pwg)
+	drain()
+	if !w.isDone(9) {
+		r.emit(tr.M{"ev": "ProbeStarved"})
+	}
+	w.cancelAll()
+	closed := make(chan struct{})
+	go func() { _ = w.dc.Close(); close(closed) }()
+	select {
+	case <-closed:
+	case <-time.After(120 * time.Second):
+		panic("DC.Close did not return")
+	}
 	r.emit(tr.M{"ev": "End"})
 }
 
